@@ -153,7 +153,21 @@ pub fn check_case(l: &mut Local, case: &Case) {
 
 fn var_specs() -> Vec<(i32, Option<(f64, f64)>)> {
     let inf = f64::INFINITY;
-    let bounds = [None, Some((0.0, 1.0)), Some((-3.0, 5.0)), Some((2.0, inf)), Some((-inf, 4.0)), Some((-inf, inf)), Some((-5.0, -1.0))];
+    // includes the shapes that interact with the MPS defaults: lower exactly 0, upper exactly 0, degenerate
+    let bounds = [
+        None,
+        Some((0.0, 1.0)),
+        Some((-3.0, 5.0)),
+        Some((2.0, inf)),
+        Some((-inf, 4.0)),
+        Some((-inf, inf)),
+        Some((-5.0, -1.0)),
+        Some((0.0, 0.0)),
+        Some((0.0, inf)),
+        Some((-3.0, 0.0)),
+        Some((-inf, 0.0)),
+        Some((1.0, 1.0)),
+    ];
     let mut v = vec![];
     for k in [KIND_CONTINUOUS, KIND_INTEGER] {
         for b in bounds {
@@ -162,6 +176,8 @@ fn var_specs() -> Vec<(i32, Option<(f64, f64)>)> {
     }
     v.push((KIND_BINARY, None));
     v.push((KIND_BINARY, Some((0.0, 1.0))));
+    v.push((KIND_BINARY, Some((0.0, 0.0))));
+    v.push((KIND_BINARY, Some((1.0, 1.0))));
     v
 }
 
@@ -279,7 +295,7 @@ pub fn run(ctx: &Ctx) -> Finish {
     });
     Finish {
         level: "model_checking",
-        rule: "every linear instance of the product: 1..3 used variables (ids {4,9,1}, rotated list order, plus an unused variable with the largest id) each over 16 kind x bound specs (continuous/integer x {absent,[0,1],[-3,5],[2,inf),(-inf,4],(-inf,inf),[-5,-1]}, binary x {absent,[0,1]}) x objective forms (absent, constant, linear +- constant) x constraint lists (0..2, = / <=, constant-only included, ids {40,3}) with function variants rotating over every message type able to hold a linear function, both senses, name present/absent; written with mps::write_file and read with mps::load_file; oracle: same sense, objective and constraints equal as polynomials under the same ids, same effective value domain for every used variable; nonlinear objective / constraint refused with an error naming the offender; non-trivial = non-empty problem".into(),
+        rule: "every linear instance of the product: 1..3 used variables (ids {4,9,1}, rotated list order, plus an unused variable with the largest id) each over 28 kind x bound specs (continuous/integer x {absent,[0,1],[-3,5],[2,inf),(-inf,4],(-inf,inf),[-5,-1],[0,0],[0,inf),[-3,0],(-inf,0],[1,1]}, binary x {absent,[0,1],[0,0],[1,1]}) x objective forms (absent, constant, linear +- constant) x constraint lists (0..2, = / <=, constant-only included, ids {40,3}) with function variants rotating over every message type able to hold a linear function, both senses, name present/absent; written with mps::write_file and read with mps::load_file; oracle: same sense, objective and constraints equal as polynomials under the same ids, same effective value domain for every used variable; nonlinear objective / constraint refused with an error naming the offender; non-trivial = non-empty problem".into(),
         bounds: json!({"variables_max": nv_max, "kind_bound_specs": specs.len(), "constraints_max": 2}),
         exhaustive: t,
     }
